@@ -4,6 +4,8 @@ ENGINES = [
 ]
 NOTES = "All checks: ./run.sh <id> quick|thorough rebuilds the harness against /repo's working tree (replace directive) and rewrites evidence/<id>.json. known_findings.json is read-only at run time."
 NOT_YET = {}
+ENGINES.append({"name": "E2-regen", "path": "/verif/internal/regen, /verif/drivers", "serves_properties": ["C05", "C14"],
+     "kind_free_text": "regenerate-compile-drive pipeline: specs are generated in process by the generator of the tree under check into a scratch module, compiled with a driver and every case of the bounded space is executed on the regenerated code"})
 CHECKS["C12"] = dict(
     category="exploration", engine="E1-enum",
     technique="bounded-exhaustive enumeration (all strings <= N over a 12-symbol alphabet; all spelling pairs of small path keys) against a reference normalizer",
@@ -41,4 +43,17 @@ CHECKS["C06"] = dict(
     technique="complete enumeration of the admitted (in, style, explode, shape) cells (decided by the real parser+generator) x bounded-exhaustive values over a delimiter alphabet, against a reference serializer; exhaustive byte strings for cookie escaping",
     text="The 37 cells the real ogen.Parse + gen.NewGenerator admit (168 candidates probed on every run) are each driven with all strings <= 2/3 over 18 symbols as primitives, arrays of 0-3 items and objects of 0-2 fields with adversarial names through exactly the calls generated code makes (uri encoders -> net/url, net/http -> uri decoders). Core values must be accepted, serialized as the OpenAPI/RFC 6570 table prescribes and decoded unchanged; any value must be refused, rejected or delivered unchanged; values containing the active delimiter must be refused by the encoder; no panic. escapeCookie/unescapeCookie are checked on all byte strings <= 2/3 over all 256 bytes (through a build-time overlay export).",
     note="Trusted: the reference serializer in cmd/c06, net/url and net/http as transport. Unexported cookie escapers are reached through a go build -overlay file (cmd/c06/overlay), /repo is untouched. Two known findings: [] vs [\"\"] share a wire form in joined array serializations.",
+)
+
+CHECKS["C05"] = dict(
+    category="exploration", engine="E2-regen",
+    technique="bounded-exhaustive enumeration of route sets x request paths on regenerated routers against a reference template matcher",
+    text="All sets of <= 2 templates over the 57 templates of <= 2 segments from {a,b,ab,{p},a{p},{p}a,{p}-{q}} (modulo a<->b), every 3-segment template, regression shapes (thorough: triples and 3-segment pairs) are regenerated as server-only packages with the generator under check and linked into one driver; each is hit with every template instance over {fresh, every static text, empty, %2F-holding} values, every short path over the same texts, x prefix x 4 methods, plus every re-escaping of up to 4 unreserved bytes (C12 router half): 1.4e7 requests in the quick tier. Oracles S1-S6: served template instantiates to the path, static beats templated, clean instances are served, unmatched paths 404, 405 with exact Allow, FindPath agrees with ServeHTTP.",
+    note="Trusted: reference matcher in drivers/c05 (regular template matching). One known finding (parameter before static text swallows '/'): a violation is attributed to it only if it is consistent with the router's tail rule modelled exactly (node-level tails); every other S1-S6 failure is reported. Longer templates, larger sets and other segment shapes than the alphabet are not explored.",
+)
+CHECKS["C14"] = dict(
+    category="exploration", engine="E2-regen",
+    technique="complete enumeration of the go:generate directives, re-run with generators built from the working tree, byte comparison",
+    text="Finite and complete: all 42 go:generate directives with a present input (41 cmd/ogen packages, jschemagen, mkformattest) are re-run with binaries built from the tree under check (GOTOOLCHAIN=local, the directive's flags, working directory and GOPACKAGE) into a scratch target; file sets and bytes must equal the checked-in ones (695 files).",
+    note="ex_k8s is skipped: its input spec is an emptied file in this sandbox. Trusted: nothing beyond the go tool.",
 )
